@@ -394,7 +394,8 @@ pub fn run_case(c: &CliCase, bin: &str, work: &str, uid: &str, out: &str) -> Run
         write_input(work, uid, &c.recs, &c.container)
     };
     let alt = match &c.sub {
-        Sub::Cov { alt: Some(a), .. } => Some(write_input(work, &format!("{}alt", uid), a, "fa")),
+        // the counting input in a container of its own (it need not be of the same format as the input)
+        Sub::Cov { alt: Some(a), .. } => Some(write_input(work, &format!("{}alt", uid), a, &crate::p_file::container_for(&format!("alt {}", c.req()), a))),
         _ => None,
     };
     let args = c.cmdline(&inp, out, alt.as_deref());
@@ -566,7 +567,7 @@ pub fn gen_cli(r: &mut Rng, degenerate: bool) -> CliCase {
                 let l = 640 * r.range(1, 3) as usize + k as usize - 1;
                 recs.push(gen::clean_seq(r, l, gen::Flavor::Uniform));
             }
-            let mut container: String = if degenerate && r.chance(1, 6) { "empty".into() } else { r.pick(&["fa", "fa", "fq", "fawrap:7", "fagz"]).to_string() };
+            let mut container: String = if (degenerate && r.chance(1, 6)) || r.chance(1, 25) { "empty".into() } else { r.pick(&["fa", "fa", "fq", "fawrap:7", "fagz"]).to_string() };
             if container.starts_with("fawrap") && recs.iter().any(|s| s.iter().any(|&b| b >= 0x80)) {
                 // wrapping counts bytes: it would cut a multi-byte character in two and the file would no longer be text
                 container = "fa".into();
@@ -600,7 +601,8 @@ pub fn gen_cli(r: &mut Rng, degenerate: bool) -> CliCase {
             }
             // a separate counting input: unrelated records, or (degenerate) one without any countable k-mer
             let alt = if r.chance(1, 4) { Some(seqs(r, 3, k.max(1) as usize, 150, false)) } else if degenerate && r.chance(1, 3) { let n = r.below(3) as usize; Some(seqs(r, n, k.max(1) as usize, 20, true)) } else { None };
-            let bs = if r.chance(1, 5) { r.range(3, 4) } else { r.range(5, 20) };
+            // the bin size is a u64 with a lower bound only: now and then a value at or beyond 2^32
+            let bs = if r.chance(1, 5) { r.range(3, 4) } else if r.chance(1, 6) { *r.pick(&[(1u64 << 32) - 1, 1 << 32, (1 << 32) + 1, (1 << 32) + 5, u64::MAX]) } else { r.range(5, 20) };
             let bc = if r.chance(1, 5) { r.range(3, 4) } else { r.range(5, 20) };
             let mem = if r.chance(1, 5) { *r.pick(&[5u64, 129, 0]) } else { *r.pick(&[6u64, 7, 128]) };
             CliCase { sub: Sub::Cov { k, bs, bc, mem, counts: r.chance(1, 2), preset, threads, alt }, recs, container: "fa".into() }
